@@ -255,6 +255,71 @@ def gen_alt(rng, allow_attr=True):
     return {'lead': lead, 'steps': steps, 'attr': attr}
 
 
+def gen_path_for(rng, doc):
+    """a path aimed at a node that exists in the document (so that selections are not
+    mostly empty), or a random one"""
+    if rng.random() < 0.25:
+        return gen_path(rng)
+    ix = Index(doc)
+    cands = [nid for nid in ix.nodes if len(nid) >= 2]
+    if not cands:
+        return gen_path(rng)
+    alts = [aimed_alt(rng, ix, rng.choice(cands))]
+    if rng.random() < 0.12 and not alts[0].get('attr'):
+        a2 = aimed_alt(rng, ix, rng.choice(cands))
+        a2['attr'] = None
+        alts.append(a2)
+    return {'alts': alts}
+
+
+def aimed_alt(rng, ix, nid):
+    chain = [ix.nodes[nid[:k]] for k in range(2, len(nid) + 1)]    # below the root element
+    node = chain[-1]
+
+    def test_of(n, last):
+        if n[0] == 'e':
+            return '*' if rng.random() < 0.2 else n[1][1]
+        if n[0] == 't':
+            return 'text()' if rng.random() < 0.85 else 'node()'
+        if n[0] == 'c':
+            return 'comment()' if rng.random() < 0.8 else 'node()'
+        return 'node()'
+
+    r = rng.random()
+    lead = ''
+    if r < 0.45 or len(chain) == 1:
+        picked = list(range(len(chain)))
+        seps = ['/'] * len(chain)
+        if len(chain) == 1 and rng.random() < 0.3:
+            lead = rng.choice(['//', './/'])
+    elif r < 0.75:
+        lead = rng.choice(['//', './/'])
+        k = rng.choice([1, 1, 2])
+        picked = list(range(len(chain)))[-k:]
+        seps = ['/'] * len(picked)
+    else:
+        picked = [0, len(chain) - 1]
+        seps = ['/', '//' if len(chain) > 2 else '/']
+    steps = []
+    for j, i in enumerate(picked):
+        n = chain[i]
+        last = j == len(picked) - 1
+        test = test_of(n, last)
+        preds = []
+        if n[0] == 'e' and n[2] and rng.random() < 0.25:
+            a, v = rng.choice(n[2])
+            if a[0] == '':
+                preds.append(['has', a[1]] if rng.random() < 0.5 else ['eq', a[1], v])
+        elif n[0] == 'e' and rng.random() < 0.08 and ((j == 0 and lead == '') or (j > 0 and seps[j] == '/')):
+            preds.append(['pos', rng.choice([1, 1, 2])])
+        steps.append({'sep': seps[j], 'test': test, 'preds': preds})
+    attr = None
+    if node[0] == 'e' and node[2] and rng.random() < 0.15:
+        a = rng.choice(node[2])[0]
+        attr = a[1] if rng.random() < 0.8 and a[0] == '' else '*'
+    return {'lead': lead, 'steps': steps, 'attr': attr}
+
+
 def path_str(p):
     alts = []
     for alt in p['alts']:
@@ -572,10 +637,10 @@ INJECT = ['replace', 'before', 'after', 'prepend', 'append']
 SIMPLE = ['remove', 'unwrap', 'empty', 'invert', 'end', 'buffer']
 
 
-def gen_op(rng, bufs):
+def gen_op(rng, bufs, doc=None):
     r = rng.random()
     if r < 0.18:
-        return ['select', gen_path(rng)]
+        return ['select', gen_path_for(rng, doc) if doc else gen_path(rng)]
     if r < 0.40:
         return [rng.choice(INJECT), rng.choice(CONTENTS)]
     if r < 0.52:
@@ -604,18 +669,18 @@ def has_attr(path):
 ZERO_WIDTH = ('before', 'after', 'wrap', 'filter', 'replace')
 
 
-def gen_chain(rng, maxlen=4):
+def gen_chain(rng, maxlen=4, doc=None):
     """Transformer(path).op.op...: at most maxlen operations after the first select.
     Hypothesis of known finding C20-attr-structural: while an attribute selection is in the
     stream (its ATTR pseudo-event is a zero-width selection) no before/after/wrap/filter/replace."""
     n = rng.choice([0, 1, 1, 1, 2, 2, 2, 3, 3, 4])
     n = min(n, maxlen)
-    ops = [['select', gen_path(rng)]]
+    ops = [['select', gen_path_for(rng, doc) if doc else gen_path(rng)]]
     attr_seen = has_attr(ops[0][1])
     written = []
     for _ in range(n):
         for _try in range(20):
-            op = gen_op(rng, 2)
+            op = gen_op(rng, 2, doc)
             if op[0] == 'select' and has_attr(op[1]):
                 attr_seen = True
             if attr_seen and op[0] in ZERO_WIDTH:
